@@ -408,7 +408,7 @@ def layout_pipeline(tier, d, rng, exe, passes=False):
         # every coupled layout is ASSEMBLED (non-termination needs no oracle); a seeded third is walked by TLC
         for c in cc:
             c['notlc'] = rng.random() > 0.33
-    cases = sweep_cases(thorough) + cc + random_cases(rng, 2500 if not thorough else 60000)
+    cases = sweep_cases(thorough) + cc + random_cases(rng, 2500 if not thorough else 15000)
     vals = value_list(rng, 300 if not thorough else 20000)
     for m in ('LDAC', 'LDBC', 'LDAM', 'BR', 'LDAP', 'STAI'):
         for off in range(0, len(vals), 700):
